@@ -8,6 +8,7 @@ mod img_streams;
 mod geom;
 mod sectorops;
 mod cross;
+mod malform;
 mod packrun;
 mod codec;
 mod fsck;
@@ -43,6 +44,8 @@ fn dispatch(toks: &[&str]) -> String {
         "dpbinfo" => { let d = a2kit::bios::dpb::DiskParameterBlock::create(&geom::kind_of(toks[2])); format!("{} {} {} {} {} {}",d.bsh,d.off,d.dsm,d.drm,d.exm,d.spt) },
         "crc32" | "crc16" | "imdtrk" | "codec" => codec::dispatch(toks),
         "deseq" | "dosbin" | "dostok" | "pack" | "txtb" => packrun::dispatch(toks),
+        "malform" => malform::run(toks),
+        "wozchunk" | "imdparse" | "dosunbin" => malform::pieces(toks),
         "cells" => cross::cells(toks),
         "cross" => cross::cross(toks),
         "fsh" => fsrun::run(toks),
